@@ -105,6 +105,10 @@ def render_paths(src, k, d, prog=None):
         sys.path.remove(pdir)
     t5 = ModuleTemplate(mod, module_source=t1.code, template_source=src)
     out["P5"] = run(lambda: t5.render_unicode(**tenv.make_ctx()))
+    # (the module was imported under a name of its own: source and code are still the template's)
+    meta["P5"] = (run(lambda: t5.source)[1], sorted(t5.list_defs()), None)
+    if run(lambda: t5.code) != ("ok", t1.code):
+        meta["P5"] = ("Template.code of the ModuleTemplate: %r" % (run(lambda: t5.code),), meta["P5"][1], None)
     sys.modules.pop(modname, None)
     return out, meta, (t1, t2, t3), fn, modfile
 
@@ -702,6 +706,41 @@ def check_same_uri_two_lookups(ev, fails, d):
                 ev.case(key=["same-uri", mode, list(order), who], nontrivial=True, labels=("same-uri-two-lookups",))
 
 
+def check_relative_moddir(ev, fails, d):
+    """module_directory given as a relative path: what the template answers later does not depend on where the process has
+    moved to in the meantime"""
+    from mako.template import Template
+
+    k = next(_k)
+    proj = {}
+    for who in ("a", "b"):
+        proj[who] = os.path.join(d, "rel%d_%s" % (k, who))
+        os.makedirs(os.path.join(proj[who], "templates"))
+        with open(os.path.join(proj[who], "templates", "page.html"), "w") as fh:
+            fh.write('<%%def name="item()">%s-item</%%def>page of %s ${item()}\n' % (who, who))
+    old = os.getcwd()
+    try:
+        os.chdir(proj["b"])
+        Template(filename=os.path.join(proj["b"], "templates", "page.html"), module_directory="modules", uri="/page.html").render_unicode()
+        os.chdir(proj["a"])
+        ta = Template(filename=os.path.join(proj["a"], "templates", "page.html"), module_directory="modules", uri="/page.html")
+        with open(os.path.join(proj["a"], "modules", "page.html.py")) as fh:
+            own_code = fh.read()
+        for where in (d, proj["b"], proj["a"]):
+            os.chdir(where)
+            got = (_run(ta.render_unicode), _run(lambda: ta.source), _run(lambda: ta.code), _run(lambda: ta.get_def("item").code))
+            exp = (("ok", "page of a a-item\n"), ("ok", open(os.path.join(proj["a"], "templates", "page.html")).read()), ("ok", own_code), ("ok", own_code))
+            case = {"part": "relative-moddir", "cwd": os.path.relpath(where, d)}
+            if got != exp:
+                which = [n for n, g, e in zip(("render", "source", "code", "get_def.code"), got, exp) if g != e]
+                f = Failure(case, "module_directory='modules' given while working in project a, then chdir to %s: %s differ: got %r"
+                            % (case["cwd"], which, [g if g[0] != "ok" else g[1][:80] for g in got]), "relative-module-directory")
+                fails.setdefault(f.key, f)
+            ev.case(key=["relative-moddir", case["cwd"]], nontrivial=where != proj["a"], labels=("relative-moddir",))
+    finally:
+        os.chdir(old)
+
+
 # ---- colliding URIs ---------------------------------------------------------
 def check_collision(ev, fails):
     from mako.template import Template
@@ -774,6 +813,7 @@ def run(ctx):
         check_cli_dirs_all(ctx.ev, fails, d)
         check_fixed_sources(ctx.ev, fails, d)
         check_same_uri_two_lookups(ctx.ev, fails, d)
+        check_relative_moddir(ctx.ev, fails, d)
     for f in fails.values():
         ctx.fail(f)
     n = ctx.pick(40, 1500)
@@ -811,6 +851,8 @@ def replay(case):
                 check_fixed_sources(ev, fails, d)
             elif part == "same-uri":
                 check_same_uri_two_lookups(ev, fails, d)
+            elif part == "relative-moddir":
+                check_relative_moddir(ev, fails, d)
             elif part == "nsset":
                 from mako.lookup import TemplateLookup
 
